@@ -4,6 +4,7 @@ CONSTANTS
   NetMode = "all2"
   Limits = {0, 2, 3}
   MaxM = {1000}
+  EmitFrom = 2
   Ops = {"exp", "bfs", "dfs", "min", "skipmin", "skiprem", "seeds"}
 VIEW view
 INVARIANT Inv_WF
@@ -15,4 +16,5 @@ INVARIANT Inv_FullExact
 INVARIANT Inv_MinExact
 INVARIANT Inv_ASeedsSound
 INVARIANT Inv_Seeds
+INVARIANT Emit
 CHECK_DEADLOCK FALSE
